@@ -167,7 +167,8 @@ func vcliC17Session(r *verifrt.R, c *verifrt.Case, simple bool) {
 
 	for i := 0; i < p.Requests; i++ {
 		if p.Bodies[i] < 0 {
-			s.NewReq("GET", -1, false, 0, false, false)
+			// one bodiless request in four is a HEAD
+			s.NewReq([]string{"GET", "GET", "GET", "HEAD"}[rng.IntN(4)], -1, false, 0, false, false)
 		} else {
 			s.NewReq("POST", int64(p.Bodies[i]), rng.IntN(2) == 0, 0, rng.IntN(2) == 0, true)
 		}
@@ -300,6 +301,36 @@ func vcliC17Session(r *verifrt.R, c *verifrt.Case, simple bool) {
 		return out
 	}
 
+	// responses whose HEADERS went out without END_STREAM; the stream stays open in the server's
+	// view (and has to in the client's, also for a HEAD request) until an empty DATA frame ends it
+	type halfDone struct {
+		sc *vcliSrvConn
+		st *vcliStream
+	}
+	var pendingEnd []halfDone
+	complete := func(sc *vcliSrvConn, st *vcliStream) {
+		if !p.Simple && rng.IntN(3) == 0 {
+			sc.SendResponse(st.id, 200, 0, false)
+			pendingEnd = append(pendingEnd, halfDone{sc, st})
+			r.Event("responses_whose_headers_do_not_end_the_stream", 1)
+			return
+		}
+		sc.SendResponse(st.id, 200, pick(0, 0, 5), true)
+	}
+	finishOne := func(all bool) {
+		for len(pendingEnd) > 0 {
+			i := rng.IntN(len(pendingEnd))
+			hd := pendingEnd[i]
+			pendingEnd = append(pendingEnd[:i], pendingEnd[i+1:]...)
+			if !hd.sc.Dead && !hd.sc.closedBySrv && !hd.st.closed {
+				hd.sc.send(h2ref.AppendData(nil, hd.st.id, true, nil, -1))
+				r.Event("streams_ended_by_a_later_empty_data_frame", 1)
+			}
+			if !all {
+				return
+			}
+		}
+	}
 	noted := false
 	var nudge []*vcliSrvConn
 	quiescentChecks := func() {
@@ -411,10 +442,11 @@ func vcliC17Session(r *verifrt.R, c *verifrt.Case, simple bool) {
 				}
 				for _, st := range openStreams(sc, true) {
 					if rng.IntN(2) == 0 {
-						sc.SendResponse(st.id, 200, pick(0, 0, 5), true)
+						complete(sc, st)
 					}
 				}
 			}
+			finishOne(true)
 			// a drained session may need virtual time for the pool's retry back-off
 			if step > p.Steps+20 {
 				synctest.Wait()
@@ -445,9 +477,11 @@ func vcliC17Session(r *verifrt.R, c *verifrt.Case, simple bool) {
 		case a < 7:
 			startOne()
 		case a < 11: // complete a stream
-			if os := openStreams(sc, true); len(os) > 0 {
+			if len(pendingEnd) > 0 && rng.IntN(2) == 0 {
+				finishOne(false)
+			} else if os := openStreams(sc, true); len(os) > 0 {
 				st := os[rng.IntN(len(os))]
-				sc.SendResponse(st.id, 200, pick(0, 0, 5), true)
+				complete(sc, st)
 				r.Event("streams_completed_by_server", 1)
 			}
 		case a < 13: // cancel a request: waiting or in flight
